@@ -21,6 +21,8 @@ import (
 	"bytes"
 	"fmt"
 	"io"
+	"strconv"
+	"sync"
 	"time"
 
 	pbredis "github.com/samaritan-proxy/samaritan/pb/config/protocol/redis"
@@ -121,8 +123,34 @@ func VerifCRC16(b []byte) uint16 { return crc16(b) }
 // VerifHashTag exposes hashtag.
 func VerifHashTag(b []byte) []byte { return hashtag(b) }
 
-// VerifSlotOf returns the slot the upstream routes key by.
-func VerifSlotOf(key []byte) int { return int(crc16(hashtag(key)) & (slotNum - 1)) }
+var (
+	verifRouteOnce sync.Once
+	verifRouteU    *upstream
+	verifRouteReq  *simpleRequest
+)
+
+// VerifSlotOf returns the slot the upstream routes key by: the routing
+// decision itself (chooseHost over a table whose slot i is owned by the
+// instance with address "i"), not a re-computation of it.
+func VerifSlotOf(key []byte) int {
+	verifRouteOnce.Do(func() {
+		u := &upstream{cfg: newConfig(&service.Config{})}
+		for i := range u.slots {
+			u.slots[i] = &instance{Addr: strconv.Itoa(i)}
+		}
+		verifRouteU = u
+		verifRouteReq = newSimpleRequest(newStringArray("set", "k", "v"))
+	})
+	addr, err := verifRouteU.chooseHost(key, verifRouteReq)
+	if err != nil {
+		return -1
+	}
+	slot, err := strconv.Atoi(addr)
+	if err != nil {
+		return -1
+	}
+	return slot
+}
 
 // VerifCRC16Tab returns a copy of the CRC table.
 func VerifCRC16Tab() [256]uint16 { return crc16tab }
